@@ -9,7 +9,7 @@
                          G<cur>,<max>,<status>   GetSupportedVersionResponse
                          L<status>     bytes that LLRPStatus.UnmarshalBinary itself accepts
                     every decoder answers err for a payload that is not listed for it
-       env        ';'-separated  <negsent 0|1>/<users: string of s (SendMessage) and d (Shutdown) or ->/<r|p>/<k>, or -
+       env        ';'-separated  <negsent 0|1>/<users: string of s (SendMessage) and d (Shutdown) or ->/<r|p|pe|pr|po>/<k>  (p.. = panic with a string / error / runtime.Error / other value), or -
                   (beyond the list: 1/-/r/0)
    answer:  INIT=<ok|err|panic|hang>:<alloc>:<handler called 0/1>  then one field per record
        <ver>,<typ>,<len>,<id>|<reply - | B:len:md5 | H | T>|<consumer outcome>|<alloc>
@@ -91,7 +91,7 @@ let () =
                  | [ns; us; kind; k] ->
                    let k = n_of_int (int_of_string k) in
                    let ul = if us = "-" then [] else List.init (String.length us) (fun i -> us.[i] = 'd') in
-                   { se_neg_sent = (ns = "1"); se_users = ul; se_beh = (if kind = "p" then HPanic k else HRead k) }
+                   { se_neg_sent = (ns = "1"); se_users = ul; se_beh = (match kind with "p" -> HPanic (k, PvString) | "pe" -> HPanic (k, PvError) | "pr" -> HPanic (k, PvRuntimeError) | "po" -> HPanic (k, PvOther) | _ -> HRead k) }
                  | _ -> failwith "env") (String.split_on_char ';' env)) in
          let envf (i : nat) =
            let i = int_of_nat i in
